@@ -180,3 +180,36 @@ CHECKS["C16"]["note"] = ("Crash sites found on the pinned tree were repaired (se
 CHECKS["C19"]["text"] += (" All sequences of 2 (thorough 3) foreign calls over {library A, library B with the same symbols, missing library} x 5 functions; every call position {last"
                           " instruction of the entry function, tail of a helper, helper storing the result, helper called twice, map callback, filter callback, result popped, result"
                           " stored} x {echo, last, fail, missing library, missing symbol}.")
+
+# ---- additions made after round-3 and round-4 seeding ----
+CHECKS["C01"]["text"] += (" Further layers: void functions (no return type, value-less `return`, shape followed by statements or last in the function) for all depth-<=2 shapes;"
+                          " identifier spellings (12 roles x every identifier-shaped word of the grammar used as prefix of a longer identifier); ~23 statement forms (value-less"
+                          " returns, comments, CRLF, typed assignments); corpus-wide lexical transformations (CRLF line ends, comments between statements, extra blanks) under which"
+                          " the output must not change (thorough: also over the repository examples).")
+CHECKS["C02"]["text"] += (" Every compatibility cell is also run inside a function body, incl. re-assignment from a nested block of that function; depth-2 expression trees over 10"
+                          " leaves x 12 operators compare `typeof` at run time with the statically annotated kind (quick: every 11th); calls through function-typed fields.")
+CHECKS["C03"]["text"] += (" Hosts also in CRLF and commented renderings; an edit that is rejected as a SYNTAX error instead of a type error counts as a machinery error (guard against vacuous rejections).")
+CHECKS["C05"]["text"] += (" Operands also reach the operator through 7 carriers (list element, object field, parameter, captured variable, call result, map value, unwrapped optional).")
+CHECKS["C07"]["text"] += (" 51 capture sites (captured list / str / bool / function values, from-loop bounds, interpolations, ...); a fourth family of recursive closures (read / modify a"
+                          " capture after `self(..)`, recursion creating inner closures) at nesting 1-3 under all four owner kinds; every E-hist template is also explored with all of its"
+                          " operations performed inside a function body.")
+CHECKS["C08"]["text"] += (" Three class graphs (the third lets `self` escape from the constructor into a partner's field); `-> Self` chains returning another object; every"
+                          " op-assignment operator through a field path; a recursive method.")
+CHECKS["C09"]["text"] += (" Void-function variants of every depth-<=1 (thorough <=2) shape; minimal-parentheses renderings as in C01.")
+CHECKS["C10"]["text"] += (" Class-name constants are also written from inside the class (own constructor, own method, closure in own method; `modify` with a value of the same type);"
+                          " every special declaration has a positive control (the same program without the write must run).")
+CHECKS["C11"]["text"] += (" Every module also exports a class that importers instantiate; sub-directory modules that import each other; 12 kinds of negative cases (plain / op-assignment"
+                          " to a member, const member, member element, from inside a function, `?=` into a member).")
+CHECKS["C12"]["text"] += (" Position `escaped` (closure called after the function that made it returned; carrier and fallback are that function's locals) and construct `(x) or v` with a variable fallback.")
+CHECKS["C13"]["text"] += (" Op-assignment operators -= *= /= %= through list and map indices; eight rendering variants of the templates (literal list indices, int-keyed maps, every"
+                          " operation performed inside a closure over the containers) explored to their own depth bounds.")
+CHECKS["C14"]["text"] += (" Literal index into string variables (plain, assigned in a block, op-assigned, const, longer-first) with static rejection judged against the index domain;"
+                          " every cell is also run inside a function body.")
+CHECKS["C15"]["text"] += (" Constant leaves (true, false, 2, 0) beside logging siblings; identical-leaf layer (one and the same counter call at every leaf); five callee forms (immediately"
+                          " invoked literal, method of a field, function-typed field, list element, call result).")
+CHECKS["C17"]["text"] += (" Six statement contexts for the failing expression (print, list literal, if / while condition, assert, interpolated string); a failure raised by a built-in must"
+                          " show `<native code>` as innermost trace line, every other failure must not.")
+CHECKS["C18"]["text"] += (" Stale-output layer as in C04 (transpiling over the longer .mmm of another revision).")
+CHECKS["C19"]["text"] += (" Library-file-name layer: 10 names (other / no extension, versioned soname, sub-directory, blank in the name) each beside a differently answering decoy, 7"
+                          " missing names beside an existing look-alike; list arguments (the probe renders vectors and optionals).")
+CHECKS["C20"]["text"] = CHECKS["C20"]["text"].replace("x 5 entry kinds", "x 6 entry kinds (file, non-empty directory, empty directory, symlink to file / to directory / dangling)")
